@@ -182,7 +182,7 @@ def l1_cases(r, tier):
 # =================================================================== L2
 
 AGGS = ['Sum', 'Min', 'Max', 'Avg', 'Count', 'List', 'Set', 'ArgMin', 'ArgMax', 'ArgMinK', 'ArgMaxK', 'Array',
-        'Comb', 'CombL', 'Comb2', 'Multi', 'LitKey', 'LitKey1']
+        'Comb', 'CombL', 'Comb2', 'Multi', 'LitKey', 'LitKey1', 'Multi2', 'Multi2']
 # Comb*: combine expressions in a rule body whose aggregated value is bound OUTSIDE the combine;
 # Multi: several aggregates in one head. Their results are per source row / per group records.
 # LitKey*: every grouping key is a literal and the body may select nothing (then: no row at all).
@@ -233,6 +233,14 @@ def reference_rows(rows, agg, thr=0):
     for k, g in groups.items():
       out.append([k, sum(v for v, _ in g), max(v for v, _ in g), len({w for _, w in g}),
                   sorted(w for _, w in g)])
+  elif agg == 'Multi2':
+    # several extreme-seeking aggregates in ONE rule (one scan): each must follow its own row
+    groups = {}
+    for k, a, v, w in rows:
+      groups.setdefault(k, []).append((a, v, w))
+    for k, g in groups.items():
+      out.append([k, max(g, key=lambda x: x[1])[0], min(g, key=lambda x: x[1])[0], max(x[2] for x in g),
+                  min(x[1] for x in g)])
   elif agg in ('LitKey', 'LitKey1'):
     sel = [(v, w) for k, a, v, w in rows if w > thr]
     if sel and agg == 'LitKey':
@@ -291,6 +299,8 @@ def agg_rule(agg, src, kk, src2=None, thr=0):
     return 'TCombL(k, a, l) :- %s, l List= (a :- x in Range(w + 1));' % body
   if agg == 'Comb2':
     return 'TComb2(k, a, s, n) :- %s, s += (v :- x in Range(w + 1)), n += (1 :- x in Range(w + 1));' % body
+  if agg == 'Multi2':
+    return 'TMulti2(k:, best? ArgMax= a -> v, worst? ArgMin= a -> v, mw? Max= w, lo? Min= v) distinct :- %s;' % body
   if agg == 'LitKey':
     return 'TLitKey(tag: "big", s? += v, c? Count= w, l? List= w) distinct :- %s, w > %d;' % (body, thr)
   if agg == 'LitKey1':
@@ -715,7 +725,7 @@ def run_l2(case, scratch):
       return vs
     for agg in case['aggs']:
       hdr, rows = res['T' + agg]
-      if agg in ('Comb', 'CombL', 'Comb2', 'Multi', 'LitKey', 'LitKey1'):
+      if agg in ('Comb', 'CombL', 'Comb2', 'Multi', 'LitKey', 'LitKey1', 'Multi2'):
         got_rows = []
         for row in rows:
           row = [decode(x) for x in row]
